@@ -145,6 +145,33 @@ func refSerDictBody(v *c12Val, exclude map[string]bool) string {
 	return strings.Join(parts, ".")
 }
 
+// c12Collapse returns the tree with the leading empty-string elements of every
+// list removed. It is NOT part of the oracle: it only classifies a violation
+// as "exactly the known serializeList defect" (narrow known-finding signature)
+// or as something else.
+func c12Collapse(v *c12Val) *c12Val {
+	switch v.kind {
+	case c12List:
+		out := &c12Val{kind: c12List}
+		lead := true
+		for _, e := range v.vals {
+			if lead && e.kind == c12Str && e.s == "" {
+				continue
+			}
+			lead = false
+			out.vals = append(out.vals, c12Collapse(e))
+		}
+		return out
+	case c12Dict:
+		out := &c12Val{kind: c12Dict, keys: v.keys}
+		for _, e := range v.vals {
+			out.vals = append(out.vals, c12Collapse(e))
+		}
+		return out
+	}
+	return v
+}
+
 func refTxSer(tx *c12Val) string {
 	return "icx_sendTransaction." + refSerDictBody(tx, map[string]bool{"signature": true, "txHash": true})
 }
@@ -357,14 +384,14 @@ func c12NewGrammar(thorough bool) *c12Grammar {
 	g.to = []string{"hx5bfdb090f43a808005ffc27c25b213145e80b7cd", "cxb0776ee37f5b45bfaea8cff1d8232fbb6122ec32"}
 	g.data = c12DataVariants()
 	if thorough {
-		g.value = []string{"", "0x0", "0x1", "0xde0b6b3a7640000"}
-		g.step = []string{"0x0", "0x1", "0xf4240"}
-		g.ts = []string{"0x0", "0x5c31ae7a6d8f0", "0x7fffffffffffffff"}
+		g.value = []string{"", "0x0", "0xde0b6b3a7640000"}
+		g.step = []string{"0x0", "0xf4240"}
+		g.ts = []string{"0x5c31ae7a6d8f0", "0x7fffffffffffffff"}
 		g.nid = []string{"", "0x1"}
-		g.nonce = []string{"", "0x0", "0x7"}
+		g.nonce = []string{"", "0x7"}
 	} else {
 		g.value = []string{"", "0xde0b6b3a7640000"}
-		g.step = []string{"0x0", "0xf4240"}
+		g.step = []string{"0xf4240"}
 		g.ts = []string{"0x5c31ae7a6d8f0"}
 		g.nid = []string{"", "0x1"}
 		g.nonce = []string{"", "0x7"}
@@ -585,7 +612,7 @@ type c12Ctx struct {
 	rounds     int
 }
 
-type c12Seen struct{ ser, tag, js string }
+type c12Seen struct{ ser, tag, js, collapsed string }
 
 func (c *c12Ctx) count(k string, n int64) {
 	c.mu.Lock()
@@ -629,8 +656,7 @@ func (c *c12Ctx) runCase(cs c12Case) {
 	fail := func(kind, rep, detail string) {
 		sig := fmt.Sprintf("%s/%s/form=%s", kind, rep, form)
 		if tag != "-" {
-			// probes of one specific data shape: the shape is the narrow key
-			sig = fmt.Sprintf("%s/%s/data=%s", kind, rep, tag)
+			sig += "/data=" + tag
 		}
 		r.Violation(sig,
 			fmt.Sprintf("%s\n presentation=%s idx=%v\n json=%s", detail, p.name, cs.Idx, js), cs)
@@ -644,6 +670,13 @@ func (c *c12Ctx) runCase(cs c12Case) {
 		}
 		if oerr != nil {
 			fail("unreadable", rep, oerr.Error())
+			return false
+		}
+		if o.ID != exp.ID && tag == "list-leading-empty-string" && o.ID == hex.EncodeToString(refTxID(c12Collapse(lt))) {
+			// exactly the known defect: the id is that of the transaction
+			// with the leading empty strings removed (any spelling form)
+			r.Violation("id-differs-from-reference/"+rep+"/data=list-leading-empty-string",
+				fmt.Sprintf("goloop id %s is the id of the transaction without the leading empty list elements; ICON serialisation gives %s\n presentation=%s idx=%v\n json=%s", o.ID, exp.ID, p.name, cs.Idx, js), cs)
 			return false
 		}
 		if o.ID != exp.ID {
@@ -684,13 +717,16 @@ func (c *c12Ctx) runCase(cs c12Case) {
 		c.mu.Lock()
 		other, ok := c.byGoloopID[gid]
 		if !ok {
-			c.byGoloopID[gid] = c12Seen{ser: ser, tag: tag, js: string(js)}
+			c.byGoloopID[gid] = c12Seen{ser: ser, tag: tag, js: string(js), collapsed: refTxSer(c12Collapse(lt))}
 		}
 		c.mu.Unlock()
 		if ok && other.ser != ser {
 			tg := tag
 			if tg == "-" {
 				tg = other.tag
+			}
+			if tg == "list-leading-empty-string" && other.collapsed != refTxSer(c12Collapse(lt)) {
+				tg += "/not-the-known-collapse"
 			}
 			r.Violation("distinct-transactions-share-id/data="+tg,
 				fmt.Sprintf("id %s is the id of two transactions that differ in a signed field:\n A=%s\n B=%s\n ser(A)=%s\n ser(B)=%s", gid, other.js, js, other.ser, ser), cs)
@@ -816,6 +852,10 @@ func (c *c12Ctx) runMutation(cs c12Case) {
 	if tagB != "-" {
 		tag = tagB
 	}
+	if tag == "list-leading-empty-string" && !(cs.Mut.Dim == dData && refTxSer(c12Collapse(base)) == refTxSer(c12Collapse(mt))) {
+		// a pair that the known serializeList defect does not explain
+		tag += "/not-the-known-collapse"
+	}
 	fail := func(kind, rep, detail string) {
 		r.Violation(fmt.Sprintf("%s/%s/changed=%s/data=%s", kind, rep, dim, tag),
 			fmt.Sprintf("%s\n base idx=%v changed %s -> %d\n base serialisation=%s\n new  serialisation=%s\n json=%s", detail, cs.Idx, dim, cs.Mut.Alt, serB, serM, js), cs)
@@ -880,54 +920,66 @@ func TestVerifC12(t *testing.T) {
 	}
 
 	nPres := r.Pick(4, len(c12Presentations))
-	var cases []c12Case
-	var muts []c12Case
+	// one work list in product order (form fastest, then data shape, ...): the
+	// representation cases of a logical transaction are followed directly by
+	// its mutation pairs, so a time-capped run covers a prefix of the product
+	// completely (all shapes x forms x presentations + mutations for the first
+	// value/stepLimit/... combinations).
+	var work []c12Case
+	var nCases, nMuts, nLogical int
 	opseq.Product(g.dims, func(idx []int) bool {
 		if g.build(idx) == nil {
 			return true
 		}
+		nLogical++
 		id := append([]int(nil), idx...)
 		for p := 0; p < nPres; p++ {
-			cases = append(cases, c12Case{Idx: id, Pres: p, Tier: r.Tier()})
+			work = append(work, c12Case{Idx: id, Pres: p, Tier: r.Tier()})
+			nCases++
 		}
 		// mutation part: canonical form, signed by the sender
 		if idx[dForm] == 0 && idx[dFrom] == 0 {
 			for d := 0; d < c12NDims; d++ {
 				for a := 0; a < g.dims[d]; a++ {
 					if a != idx[d] {
-						muts = append(muts, c12Case{Idx: id, Tier: r.Tier(), Mut: &c12Mut{Dim: d, Alt: a}})
+						work = append(work, c12Case{Idx: id, Tier: r.Tier(), Mut: &c12Mut{Dim: d, Alt: a}})
+						nMuts++
 					}
 				}
 			}
 		}
 		return true
 	})
-	r.Set("logical_transactions", len(cases)/nPres)
+	r.Set("logical_transactions", nLogical)
 	r.Set("presentations", nPres)
-	r.Set("mutation_pairs", len(muts))
+	r.Set("mutation_pairs", nMuts)
 	r.Set("grammar_dims", map[string]int{"from": g.dims[0], "to": g.dims[1], "value": g.dims[2], "stepLimit": g.dims[3], "timestamp": g.dims[4], "nid": g.dims[5], "nonce": g.dims[6], "data": g.dims[7], "form": g.dims[8]})
 
 	var doneA, doneB int64
 	var dmu sync.Mutex
-	ev.Par(len(cases), 16, func(i int) {
+	ev.Par(len(work), 16, func(i int) {
 		if r.Expired() {
 			return
 		}
-		c.runCase(cases[i])
-		dmu.Lock()
-		doneA++
-		dmu.Unlock()
-	})
-	ev.Par(len(muts), 16, func(i int) {
-		if r.Expired() {
-			return
+		if work[i].Mut != nil {
+			c.runMutation(work[i])
+			dmu.Lock()
+			doneB++
+			dmu.Unlock()
+		} else {
+			c.runCase(work[i])
+			dmu.Lock()
+			doneA++
+			dmu.Unlock()
 		}
-		c.runMutation(muts[i])
-		dmu.Lock()
-		doneB++
-		dmu.Unlock()
 	})
-	exhaustive := doneA == int64(len(cases)) && doneB == int64(len(muts))
+	exhaustive := doneA == int64(nCases) && doneB == int64(nMuts)
+	var cases []c12Case
+	for _, w := range work {
+		if w.Mut == nil {
+			cases = append(cases, w)
+		}
+	}
 	r.Set("cases_done", doneA)
 	r.Set("mutations_done", doneB)
 	r.Set("stats", c.stats)
